@@ -18,6 +18,7 @@ import (
 	"os/exec"
 	"strings"
 	"sync"
+	"syscall"
 	"time"
 
 	"verifharness/lib"
@@ -56,6 +57,9 @@ func parent(a lib.Args) {
 	}
 	runChild(a, w, []string{childEnv + "=1", "USE_MOCK_KEYS=true"}, "srv")
 	runChild(a, w, []string{childEnv + "=keyed", "USE_MOCK_KEYS=false"}, "srv.keyed")
+	// a listener configured with the IPv6 wildcard address (dual-stack socket): IPv4 previous hops
+	// appear as IPv4-mapped addresses (skipped with a NOTE where the host does not allow it)
+	runChild(a, w, []string{childEnv + "=dual", "USE_MOCK_KEYS=true"}, "srv.dual")
 }
 
 func runChild(a lib.Args, w *lib.Writer, env []string, crashKind string) {
@@ -69,6 +73,11 @@ func runChild(a lib.Args, w *lib.Writer, env []string, crashKind string) {
 	}
 	cmd := exec.Command(exe, args...)
 	cmd.Env = append(os.Environ(), env...)
+	for _, e := range env {
+		if e == childEnv+"=dual" { // a network namespace of its own: its loopback has no other sockets
+			cmd.SysProcAttr = &syscall.SysProcAttr{Unshareflags: syscall.CLONE_NEWNET}
+		}
+	}
 	stdout, err := cmd.StdoutPipe()
 	if err != nil {
 		panic(err)
@@ -79,6 +88,10 @@ func runChild(a lib.Args, w *lib.Writer, env []string, crashKind string) {
 		defer os.Remove(stderrFile.Name())
 	}
 	if err := cmd.Start(); err != nil {
+		if cmd.SysProcAttr != nil { // no permission to create a network namespace: the kind is skipped
+			fmt.Printf("NOTE %s skipped: the child cannot get a network namespace of its own (%v)\n", crashKind, err)
+			return
+		}
 		panic(err)
 	}
 	var mu sync.Mutex
@@ -177,6 +190,10 @@ func Main(race bool) {
 	}
 	if os.Getenv(childEnv) == "keyed" {
 		keyedChild(a)
+		return
+	}
+	if os.Getenv(childEnv) == "dual" {
+		dualChild(a)
 		return
 	}
 	child(a)
